@@ -110,7 +110,16 @@ func (x *wireExtractor) undecodedReads(body *ast.BlockStmt) map[*ast.CallExpr]bo
 			}
 			if fn != nil && strings.HasPrefix(full, "encoding/binary.") {
 				for _, a := range n.Args {
-					if id, ok := ast.Unparen(a).(*ast.Ident); ok {
+					a = ast.Unparen(a)
+					// the buffer itself or a window of it (trailer[:4], trailer[4:])
+					for {
+						se, ok := a.(*ast.SliceExpr)
+						if !ok {
+							break
+						}
+						a = ast.Unparen(se.X)
+					}
+					if id, ok := a.(*ast.Ident); ok {
 						decoded[x.info.ObjectOf(id)] = true
 					}
 				}
